@@ -319,10 +319,12 @@ func cmdCheck(args []string) int {
 				}
 				exit = 1
 			case inBase || len(baseSet) == 0 ||
-				(o.Result == "sat" && strings.HasPrefix(rr.Outcome, "not-replayable") &&
+				(o.Result == "sat" && (strings.HasPrefix(rr.Outcome, "not-replayable") || (f.res.Contract != nil && f.res.Contract.SafetyOnly)) &&
 					(strings.HasPrefix(o.Kind, "safety") || o.Kind == "call-pre" || o.Kind == "panics")):
 				// in the baseline and no longer discharged, or a definite solver counterexample to a
-				// no-runtime-fault obligation that cannot be replayed for lack of an input builder
+				// no-runtime-fault obligation that cannot be replayed for lack of an input builder, or (in a
+				// safety sweep over arbitrary arguments) whose replayed candidate did not fault because the
+				// callees the model left arbitrary behave differently in reality
 				violations++
 				if !reportedV[normObl(o.Name)] {
 					reportedV[normObl(o.Name)] = true
